@@ -275,6 +275,8 @@ class Aggregation:
             self.finalize,
             self.fill_value,
             self.dtype,
+            self.finalize_kwargs,
+            self.min_count,
         )
 
     def __repr__(self) -> str:
